@@ -761,7 +761,7 @@ func endsWithJSONExt(v ssa.Value, seen map[ssa.Value]bool, depth int) (bool, str
 		}
 		if f := cc.StaticCallee(); f != nil && len(f.Blocks) > 0 && f.Pkg != nil && strings.HasPrefix(f.Pkg.Pkg.Path(), modPath) {
 			for _, in := range instrsWhere(f, isReturn) {
-				if ok, why := endsWithJSONExt(in.(*ssa.Return).Results[0], seen, depth+1); !ok {
+				if ok, why := endsWithJSONExt(unspill(in.(*ssa.Return), 0), seen, depth+1); !ok {
 					return false, "via " + f.Name() + ": " + why
 				}
 			}
